@@ -170,6 +170,7 @@ class Scn:
 import re as _re
 STOP_RE = _re.compile(rb" c\.recv \d 1\n")
 TMAX = 20.0       # seconds a run may take after its stop condition (generous: loaded machine)
+TCAP = 240.0      # cap on the time granted for the sleeps injected by the schedule perturbation
 
 
 def run_scn(s, scr, idx):
@@ -281,15 +282,52 @@ def run_scn(s, scr, idx):
             except ProcessLookupError:
                 pass
     hang = False
-    # the process has to end: TMAX after the stop condition; a run on finite input without stop condition: 60 s
+    # the process has to end: TMAX after the stop condition; a run on finite input without stop condition: 60 s.
+    # The schedule perturbation is our own doing: every event at a perturbed site sleeps up to D microseconds, so a run
+    # is granted D (+ 200 us of sleep overhead) for every such event it goes through (after the stop condition for the
+    # first limit, since the start for the second).  Only events that are really logged extend the limit, so a process
+    # that makes no progress is still reported after TMAX; the extension is capped at TCAP.
     deadline_total = 60.0
+    slow = []
+    if s.sched:
+        for item in s.sched.split(":", 1)[-1].split(","):
+            if "=" in item:
+                site, us = item.split("=", 1)
+                slow.append((site.encode(), (int(us) + 200) * 1e-6))
+    tpos = [0]
+    ttail = [b""]
+    granted = [0.0]           # seconds granted since the start
+
+    def grant():
+        if not slow:
+            return
+        try:
+            with open(trace, "rb") as tf:
+                tf.seek(tpos[0])
+                chunk = tf.read(1 << 26)
+        except OSError:
+            return
+        if not chunk:
+            return
+        tpos[0] += len(chunk)
+        buf = ttail[0] + chunk
+        cut = buf.rfind(b"\n") + 1
+        ttail[0] = buf[cut:]
+        for site, cost in slow:
+            granted[0] += buf.count(b" " + site, 0, cut) * cost
+
+    granted_at_stop = None
     while True:
         try:
             p.wait(timeout=0.25)
             break
         except subprocess.TimeoutExpired:
             now = time.time()
-            if (stop_t[0] is not None and now - stop_t[0] > TMAX) or now - t0 > deadline_total:
+            grant()
+            if stop_t[0] is not None and granted_at_stop is None:
+                granted_at_stop = granted[0]
+            extra_stop = min(TCAP, granted[0] - granted_at_stop) if granted_at_stop is not None else 0.0
+            if (stop_t[0] is not None and now - stop_t[0] > TMAX + extra_stop) or now - t0 > deadline_total + min(TCAP, granted[0]):
                 hang = True
                 # evidence for the replay: where are the threads?
                 p.kill()
@@ -303,11 +341,12 @@ def run_scn(s, scr, idx):
     evs, th = parse_trace(trace)
     res = {"name": s.name, "args": " ".join(s.args), "stdin": s.stdin_mode, "sched": s.sched or "-", "action": list(map(str, s.action)),
            "rc": rc, "hang": hang, "wall_s": round(t_exit - t0, 3),
-           "after_stop_s": round(t_exit - stop_t[0], 3) if stop_t[0] else None,
+           "after_stop_s": round(t_exit - stop_t[0], 3) if stop_t[0] else None, "granted_for_injected_sleeps_s": round(granted[0], 2),
            "stdout_bytes": out_n[0], "trace_events": len(evs)}
     viol = []
     if hang:
-        viol.append("hang: process still running %.0f s after the stop condition (killed)" % TMAX)
+        viol.append("hang: process still running %.0f s after the stop condition (killed)" % TMAX if granted[0] == 0 else
+                    "hang: process still running %.0f s (+ %.1f s granted for the sleeps injected at %s) after the stop condition (killed)" % (TMAX, granted[0], s.sched))
     elif rc is not None and rc < 0 and s.action[0] == "signal" and -rc == int(s.action[1]):
         # the signal arrived before the handler was installed (process start-up): the default action ended the
         # process -- bounded, no panic; the -o file is still checked below
